@@ -6,6 +6,7 @@ import (
 	"fmt"
 	"io"
 	"net"
+	"runtime"
 	"strconv"
 	"strings"
 	"sync"
@@ -22,15 +23,16 @@ import (
 
 // coord synchronises the peers with the goroutine that calls Close.
 type coord struct {
-	trigger      chan struct{} // closed when peer 0 completed step ClosePoint
-	closeStarted chan struct{} // closed just before Close is called
-	closeDone    chan struct{} // closed when Close returned
-	trigOnce     sync.Once
-	reached      atomic.Int64 // last step peer 0 completed
+	trigger       chan struct{} // closed when peer 0 completed step ClosePoint
+	closeStarted  chan struct{} // closed just before Close is called
+	closeDone     chan struct{} // closed when Close returned
+	streamClosing chan struct{} // target stream: closed just before ServerStream.Close (peers stay parked)
+	trigOnce      sync.Once
+	reached       atomic.Int64 // last step peer 0 completed
 }
 
 func newCoord() *coord {
-	c := &coord{trigger: make(chan struct{}), closeStarted: make(chan struct{}), closeDone: make(chan struct{})}
+	c := &coord{trigger: make(chan struct{}), closeStarted: make(chan struct{}), closeDone: make(chan struct{}), streamClosing: make(chan struct{})}
 	c.reached.Store(-1)
 	return c
 }
@@ -242,22 +244,32 @@ func (p *clientPeer) do(step int) error {
 	return nil
 }
 
-// park keeps the peer in its current state until the Close starts (recorders keep writing).
+// park keeps the peer in its current state until the Close starts.  A recording peer keeps writing at full
+// speed (its socket / the server's receive queue always hold a backlog of packets) and goes on across the Close.
 func (p *clientPeer) park(step int) {
 	if p.spec.Mode == "record" && (step == StepFlow || step == StepFlow2 || step == StepPlay || step == StepPlay2) {
+		burst := func() bool {
+			for i := 0; i < 24; i++ {
+				if err := p.writeOne(); err != nil && strings.Contains(err.Error(), "terminated") {
+					return false
+				}
+			}
+			runtime.Gosched()
+			return true
+		}
 		for {
 			select {
 			case <-p.co.closeStarted:
-				// keep writing across the Close for a moment
-				for i := 0; i < 20; i++ {
-					if p.writeOne() != nil {
-						return
-					}
-					time.Sleep(100 * time.Microsecond)
+				deadline := time.Now().Add(25 * time.Millisecond)
+				for time.Now().Before(deadline) && burst() {
 				}
 				return
-			case <-time.After(400 * time.Microsecond):
-				_ = p.writeOne()
+			default:
+				if !burst() {
+					<-p.co.closeStarted
+					return
+				}
+				time.Sleep(100 * time.Microsecond)
 			}
 		}
 	}
